@@ -230,6 +230,11 @@ impl<S: Read + Write> Client<S> {
         self.transport.shutdown()
     }
 
+    /// Number of bytes buffered by the TLS layer
+    pub fn buffered_read_size(&self) -> usize {
+        self.transport.buffered_read_size()
+    }
+
     #[cfg(feature = "integration")]
     pub fn get_link(self) -> Link<S> {
         self.transport
